@@ -85,6 +85,31 @@ def gen_cases(tier, seed):
     return calls
 
 
+def interaction_core():
+    """A fixed list every worker replays in addition to its shard: groups of calls that differ in exactly one respect
+    (same kind / other colours, same content / other options, same size / other content, lists sharing parts), so that
+    state keyed by a *part* of the arguments (a cache, a reused colour map, a shared buffer) changes a result."""
+    out = []
+    k = 900000
+    for kind in ('ppm', 'png', 'svg'):
+        for cols in ({'dark': 'red', 'light': 'white'}, {'dark': 'navy', 'light': 'gold'}, {'dark': '#123456', 'light': '#abc', 'finder_dark': 'red'},
+                     {'dark': 'gold', 'light': 'navy', 'data_light': '#123456'}, {}):
+            out.append({'op': 'save', 'content': 'INTERACTION', 'make_kw': {}, 'kind': kind, 'kw': dict(cols)})
+    for kw in ({}, {'error': 'H'}, {'mask': 3}, {'version': 5}, {'micro': False}, {'boost_error': False}, {'mode': 'byte'}):
+        out.append({'op': 'make', 'fn': 'make', 'content': 'ABC123', 'kw': dict(kw)})
+    for content in ('12345678', '1234567', 'ABCDEFGH', 'abcdefgh', '点茗荷', b'\x00\x01\x02'):
+        out.append({'op': 'make', 'fn': 'make', 'content': content, 'kw': {'version': 2}})
+    for content in (['ABCD', 'EF'], 'ABCD', ['ABCD', 'EF', 'GH'], ['123', '456'], '123', ['123', '456', 'abc'], ['abc', 'def'], 'abc', 'ABCDEF'):
+        out.append({'op': 'make', 'fn': 'make', 'content': content, 'kw': {}})
+    for kind in ('pdf', 'eps', 'txt', 'xpm', 'pam'):
+        for skw in ({}, {'scale': 2}, {'border': 1}):
+            out.append({'op': 'save', 'content': 'INTERACTION', 'make_kw': {'error': 'Q'}, 'kind': kind, 'kw': dict(skw)})
+    for c in out:
+        c['id'] = k
+        k += 1
+    return out
+
+
 _STAMPS = [(re.compile(rb'(%%CreationDate: )[0-9: -]{19}'), rb'\1' + b'X' * 19),
            (re.compile(rb"(/CreationDate\(D:)[0-9+\-']{21}"), rb'\1' + b'X' * 21)]
 
@@ -310,7 +335,7 @@ def run_cases(cases, rec, tier='quick', seed='0'):
     monitors.start_reach()
     state_at_import = module_state()
     groups = [c for c in cases if c['op'] == 'barrier-group']
-    plain = [c for c in cases if c['op'] != 'barrier-group']
+    plain = [c for c in cases if c['op'] != 'barrier-group'] + interaction_core()
     golden = golden_in_subprocess(plain + [cc for g in groups for cc in g['calls']])
     rec.count('golden_subprocesses', len(golden))
     # ---------------------------------------------------------------- threads first: every size is used for the first
